@@ -420,6 +420,7 @@ class Connection:
         self.mangle: t.Optional[t.Callable[[str, bytes, "Connection"], bytes]] = None  # adversary hook
         self.tag: t.Any = None
         self.last_sealed_reply: t.Optional[bytes] = None
+        self.last_plain_body: t.Optional[bytes] = None
 
     def log(self, **ev_: t.Any) -> None:
         ev_["conn"] = self.id
@@ -607,6 +608,7 @@ class Connection:
         res = self.ctx.wrap_iov([(so, hdr), body, (so, tr8), iov.BufferType.header], encrypt=True, qop=None)
         out = hdr + (res.buffers[1].data or b"") + tr8 + (res.buffers[3].data or b"")
         self.last_sealed_reply = out
+        self.last_plain_body = body
         return out
 
 
